@@ -353,6 +353,7 @@ func judge(fc *fileCtx, q request, rs response) (*eng.Violation, string) {
 			}
 			if f0.A == 0 {
 				firstKind = "suffix0"
+				firstPos = 0 // "-0" reaches the backend as From=0: the reader stays at the start
 			}
 		}
 	}
